@@ -100,6 +100,10 @@ func (channel *Channel) basicGet(method *amqp.BasicGet) (err *amqp.Error) {
 		return err
 	}
 
+	if err = channel.checkQueueLockWithError(qu, method); err != nil {
+		return err
+	}
+
 	if method.NoAck {
 		message = qu.Pop()
 	} else {
